@@ -206,6 +206,8 @@ pub(super) fn ew_multiuse_check(ad: &[usize], bd: &[usize], uses: usize, passes:
     let mut r = &a * &b;
     if uses >= 2 { r = &r + &(&a + &b); }
     if uses >= 3 { r = &r + &(&b - &a); }
+    // uses == 4: a use of b that is NOT broadcast (its adjoint arrives with b's own shape)
+    if uses >= 4 { r = &r + &(&b * 3.0); }
     let on = numel(&od);
     let sv = sym_vec(on, sym_val);
     let mut p = 0;
@@ -224,6 +226,7 @@ pub(super) fn ew_multiuse_check(ad: &[usize], bd: &[usize], uses: usize, passes:
         let mut db = a.values[pa];
         if uses >= 2 { da = da + 1.0; db = db + 1.0; }
         if uses >= 3 { da = da - 1.0; db = db + 1.0; }
+        if uses >= 4 { db = db + 3.0; }
         ea[pa] = ea[pa] + (passes as Float) * sv[i] * da;
         eb[pb] = eb[pb] + (passes as Float) * sv[i] * db;
         i += 1;
